@@ -232,6 +232,13 @@ def sizeMax : Nat := 2 ^ 64
 /-- `size_t(end - pos)` -/
 def remaining (size pos : Nat) : Nat := if pos ≤ size then size - pos else sizeMax - (pos - size)
 
+/-- do_decode_resize: `codec_traits<T>::size > 0 ? size_t(codec_traits<T>::size) : 1` for the element type `T` of
+    the array bound to sizer `n` (the C++ generator refuses several arrays on one sizer) -/
+def resizeElem (n : String) (all : List Member) : Nat :=
+  match all.find? (fun m => m.kind.sizer? = some n) with
+  | some m => if codecSize m.ty > 0 then (codecSize m.ty).toNat else 1
+  | none => 1
+
 /-- largest `resize` the model lets through before `std::length_error`/`bad_alloc` (elements) -/
 def resizeLimit : Nat := 2 ^ 28
 
@@ -392,7 +399,7 @@ mutual
                 | .limited _ l => some l
                 | _ => none
               if (match lim with | some l => decide (cnt > l) | none => false) then (.fail rs1, pos1)
-              else if cnt > remaining size pos1 then (.fail rs1, pos1)     -- the counter cannot be satisfied
+              else if cnt > remaining size pos1 / resizeElem n all then (.fail rs1, pos1)     -- the counter cannot be satisfied
               else if cnt > resizeLimit then (.throw (cnt :: rs1), pos1)
               else
                 let bound := all.filterMap (fun m => if m.kind.sizer? = some n then some (m.name, cnt) else none)
